@@ -14,6 +14,11 @@ package main
 //   str := strconv.FormatInt(int64(e), 4); for i, s := range strings.Split(str, "") { …; if c { break } }
 //                                                   → recursion over the list `fmtBase4 e` of digit values ('-' is −1);
 //                                                     `s == "2"` becomes `s = 2`, `break` returns the state
+//   obj, err := object.NewExtendedSpatialID(id); if err != nil { return "" }; obj.X() …   → the parsed components id_HZoom, id_X,
+//                                                     id_Y, id_VZoom, id_Z of a WELL-FORMED id (the malformed branch is the caller's)
+//   int64(math.Pow(2, float64(e)) - 1), int64(math.Mod(float64(a), math.Pow(2, float64(e))))   → pow2 e − 1, Int.tmod a (pow2 e)
+//                                                     (exact for |a| < 2^53, 0 ≤ e ≤ 62: the float assumption of the models)
+//   l := []string{strconv.FormatInt(a, 10), …}; return strings.Join(l, "/")          → the tuple (a, …) of the printed integers
 // Result types: int64 → Int; bool → Bool; (int64, error) → Outcome Int; (int64, int64, error) → Outcome (Int × Int);
 // (error, bool) → Bool (the error value carries no information beyond the bool); tuples of int64 → products.
 // Anything else makes the translator REFUSE the function: it then emits `def Gen.<name>_untranslatable : String := "<why>"`
@@ -30,6 +35,9 @@ import (
 
 type target struct{ pkg, name string }
 
+// skipFns: target functions whose generated definition the caller found not to compile (-skip a,b): emitted as untranslatable
+var skipFns = map[string]bool{}
+
 var targets = []target{
 	{"common", "CalculateArithmeticShift"},
 	{"shape", "CheckZoom"},
@@ -44,6 +52,7 @@ var targets = []target{
 	{"detector", "offsetFIndex"},
 	{"transform", "convertHorizontalIDToQuadkey"},
 	{"transform", "convertQuadkeyToHorizontalID"},
+	{"operated", "GetShiftingSpatialID"},
 }
 
 type retKind int
@@ -56,6 +65,7 @@ const (
 	retErrBool  // (error, bool) → Bool
 	retTuple    // (int64, …, int64)
 	retErrOnly  // error → Bool ("an error is returned")
+	retIDString // string built as strings.Join([]string{FormatInt(a,10), …}, "/") → the tuple of the printed integers
 )
 
 type fnInfo struct {
@@ -83,6 +93,10 @@ type translator struct {
 	digitVars map[string]bool   // range value variables holding one character of such a string
 	breakRet  string            // inside a range loop: what `break` returns (the state tuple); "" elsewhere
 	usesFuel  bool              // the current function contains a counted loop (translated with fuel)
+	fuelFns   map[string]bool   // translated functions that take a leading fuel argument
+	objVars   map[string]string // variable bound to object.NewExtendedSpatialID(p) → the string parameter p
+	objFields map[string]bool   // accessor names used on such an object (X, Y, Z, HZoom, VZoom)
+	idLits    map[string][]string // []string{strconv.FormatInt(a, 10), …} variable → the Lean integer expressions
 }
 
 func (t *translator) failf(format string, a ...interface{}) {
@@ -122,6 +136,8 @@ func (t *translator) resultKind(fn *ast.FuncDecl) (fnInfo, bool) {
 		return fnInfo{retBool, 1}, true
 	case len(types) == 1 && types[0] == "error":
 		return fnInfo{retErrOnly, 1}, true
+	case len(types) == 1 && types[0] == "string":
+		return fnInfo{retIDString, 5}, true
 	case len(types) == 2 && types[0] == "int64" && types[1] == "error":
 		return fnInfo{retOutInt, 1}, true
 	case len(types) == 3 && types[0] == "int64" && types[1] == "int64" && types[2] == "error":
@@ -144,6 +160,8 @@ func leanRet(k fnInfo) string {
 		return "Outcome Int"
 	case retOutPair:
 		return "Outcome (Int × Int)"
+	case retIDString:
+		return "Int × Int × Int × Int × Int"
 	default:
 		return strings.TrimSuffix(strings.Repeat("Int × ", k.arity), " × ")
 	}
@@ -223,6 +241,46 @@ func (t *translator) intExpr(e ast.Expr) string {
 		if s, ok := t.pow2Idiom(v); ok {
 			return s
 		}
+		// obj.X() on a parsed ID
+		if sel, ok := v.Fun.(*ast.SelectorExpr); ok && len(v.Args) == 0 {
+			if id, ok := sel.X.(*ast.Ident); ok {
+				if prm, ok := t.objVars[id.Name]; ok {
+					switch sel.Sel.Name {
+					case "X", "Y", "Z", "HZoom", "VZoom":
+						t.objFields[sel.Sel.Name] = true
+						return prm + "_" + sel.Sel.Name
+					}
+					t.failf("unsupported accessor %s", sel.Sel.Name)
+					return "0"
+				}
+			}
+		}
+		if id, ok := v.Fun.(*ast.Ident); ok && id.Name == "int64" && len(v.Args) == 1 {
+			// int64(math.Pow(2, float64(e)) - k)
+			if be, ok := v.Args[0].(*ast.BinaryExpr); ok && (be.Op == token.SUB || be.Op == token.ADD) {
+				if lit, ok := be.Y.(*ast.BasicLit); ok && lit.Kind == token.INT {
+					if inner, ok := be.X.(*ast.CallExpr); ok {
+						if p, ok := t.pow2Idiom(&ast.CallExpr{Fun: ast.NewIdent("int64"), Args: []ast.Expr{inner}}); ok {
+							op := " - "
+							if be.Op == token.ADD {
+								op = " + "
+							}
+							return "(" + p + op + lit.Value + ")"
+						}
+					}
+				}
+			}
+			// int64(math.Mod(float64(a), math.Pow(2, float64(e))))
+			if mc, ok := v.Args[0].(*ast.CallExpr); ok && exprStr(mc.Fun) == "math.Mod" && len(mc.Args) == 2 {
+				if fa, ok := mc.Args[0].(*ast.CallExpr); ok && exprStr(fa.Fun) == "float64" && len(fa.Args) == 1 {
+					if pc, ok := mc.Args[1].(*ast.CallExpr); ok {
+						if p, ok := t.pow2Idiom(&ast.CallExpr{Fun: ast.NewIdent("int64"), Args: []ast.Expr{pc}}); ok {
+							return "(Int.tmod " + t.intExpr(fa.Args[0]) + " " + p + ")"
+						}
+					}
+				}
+			}
+		}
 		if id, ok := v.Fun.(*ast.Ident); ok && (id.Name == "int64" || id.Name == "int") && len(v.Args) == 1 {
 			return t.intExpr(v.Args[0])
 		}
@@ -234,6 +292,10 @@ func (t *translator) intExpr(e ast.Expr) string {
 			args := make([]string, len(v.Args))
 			for i, a := range v.Args {
 				args[i] = t.intExpr(a)
+			}
+			if t.fuelFns[name] { // the callee contains a counted loop: the caller's fuel is handed on
+				t.usesFuel = true
+				return "(Gen." + name + " fuel " + strings.Join(args, " ") + ")"
 			}
 			return "(Gen." + name + " " + strings.Join(args, " ") + ")"
 		}
@@ -364,6 +426,18 @@ func (t *translator) returnStmt(r *ast.ReturnStmt, ind string) string {
 			return ind + "return .ok (" + t.intExpr(res[0]) + ", " + t.intExpr(res[1]) + ")\n"
 		}
 		return ind + "return .err\n"
+	case retIDString:
+		if c, ok := res[0].(*ast.CallExpr); ok && exprStr(c.Fun) == "strings.Join" && len(c.Args) == 2 {
+			sep := exprStr(c.Args[1])
+			if parts, ok := t.idLits[exprStr(c.Args[0])]; ok && (sep == `"/"` || strings.HasSuffix(sep, "SpatialIDDelimiter")) {
+				if len(parts) != 5 {
+					t.failf("the returned ID has %d fields", len(parts))
+				}
+				return ind + "return (" + strings.Join(parts, ", ") + ")\n"
+			}
+		}
+		t.failf("the returned string is not strings.Join([]string{strconv.FormatInt(…, 10), …}, \"/\")")
+		return ""
 	default:
 		parts := make([]string, len(res))
 		for i, e := range res {
@@ -427,6 +501,45 @@ func (t *translator) block(stmts []ast.Stmt, ind string, declared map[string]boo
 				t.failf("unsupported branch statement at line %d", fset.Position(s.Pos()).Line)
 			}
 		case *ast.AssignStmt:
+			// obj, err := object.NewExtendedSpatialID(p) on a string parameter, followed by `if err != nil { return "" }`
+			if len(v.Lhs) == 2 && len(v.Rhs) == 1 {
+				if call, ok := v.Rhs[0].(*ast.CallExpr); ok && strings.HasSuffix(exprStr(call.Fun), "NewExtendedSpatialID") && len(call.Args) == 1 {
+					if _, isParam := t.strParams[exprStr(call.Args[0])]; isParam && t.cur.kind == retIDString {
+						errName := exprStr(v.Lhs[1])
+						if i+1 < len(stmts) {
+							if ifs, ok := stmts[i+1].(*ast.IfStmt); ok && ifs.Init == nil && ifs.Else == nil && exprStr(ifs.Cond) == errName+" != nil" && len(ifs.Body.List) == 1 {
+								if r, ok := ifs.Body.List[0].(*ast.ReturnStmt); ok && len(r.Results) == 1 && exprStr(r.Results[0]) == `""` {
+									t.objVars[exprStr(v.Lhs[0])] = exprStr(call.Args[0])
+									t.strParams[exprStr(call.Args[0])] = -1 // read through the parsed object
+									i++
+									continue
+								}
+							}
+						}
+						t.failf("NewExtendedSpatialID is not followed by `if err != nil { return \"\" }`")
+						continue
+					}
+				}
+			}
+			// l := []string{strconv.FormatInt(a, 10), …}: remembered, nothing emitted
+			if len(v.Lhs) == 1 && len(v.Rhs) == 1 {
+				if lit, ok := v.Rhs[0].(*ast.CompositeLit); ok && exprStr(lit.Type) == "[]string" {
+					var parts []string
+					okAll := true
+					for _, el := range lit.Elts {
+						c, ok := el.(*ast.CallExpr)
+						if !ok || exprStr(c.Fun) != "strconv.FormatInt" || len(c.Args) != 2 || exprStr(c.Args[1]) != "10" {
+							okAll = false
+							break
+						}
+						parts = append(parts, t.intExpr(c.Args[0]))
+					}
+					if okAll && len(parts) > 0 {
+						t.idLits[exprStr(v.Lhs[0])] = parts
+						continue
+					}
+				}
+			}
 			// str := strconv.FormatInt(int64(e), 4): remembered as the list of its digit values, nothing emitted
 			if len(v.Lhs) == 1 && len(v.Rhs) == 1 {
 				if l, ok := t.fmtBase4(v.Rhs[0]); ok {
@@ -720,6 +833,9 @@ func (t *translator) function(fn *ast.FuncDecl, info fnInfo) string {
 	t.digitVars = map[string]bool{}
 	t.breakRet = ""
 	t.usesFuel = false
+	t.objVars = map[string]string{}
+	t.objFields = map[string]bool{}
+	t.idLits = map[string][]string{}
 	for _, f := range fn.Type.Params.List {
 		ty := typeStr(f.Type)
 		for _, n := range f.Names {
@@ -736,6 +852,36 @@ func (t *translator) function(fn *ast.FuncDecl, info fnInfo) string {
 		}
 	}
 	var pre strings.Builder
+	// Go parameters are assignable: every int64 parameter that the body assigns is shadowed by a mutable local
+	assignedParams := map[string]bool{}
+	if fn.Body != nil {
+		ast.Inspect(fn.Body, func(n ast.Node) bool {
+			switch v := n.(type) {
+			case *ast.AssignStmt:
+				if v.Tok != token.DEFINE {
+					for _, l := range v.Lhs {
+						if id, ok := l.(*ast.Ident); ok {
+							assignedParams[id.Name] = true
+						}
+					}
+				}
+			case *ast.IncDecStmt:
+				if id, ok := v.X.(*ast.Ident); ok {
+					assignedParams[id.Name] = true
+				}
+			}
+			return true
+		})
+	}
+	for _, f := range fn.Type.Params.List {
+		if typeStr(f.Type) == "int64" {
+			for _, n := range f.Names {
+				if assignedParams[n.Name] {
+					pre.WriteString("  let mut " + n.Name + " : Int := " + n.Name + "\n")
+				}
+			}
+		}
+	}
 	if fn.Type.Results != nil {
 		for _, f := range fn.Type.Results.List {
 			for _, n := range f.Names {
@@ -763,6 +909,11 @@ func (t *translator) function(fn *ast.FuncDecl, info fnInfo) string {
 			case "string":
 				if t.strParams[n.Name] == 0 {
 					t.failf("string parameter %s is not read through strings.Split(%s, \"/\") and strconv.ParseInt", n.Name, n.Name)
+				}
+				if t.strParams[n.Name] < 0 { // parsed by object.NewExtendedSpatialID: the five components, in the order of the ID
+					for _, fld := range []string{"HZoom", "X", "Y", "VZoom", "Z"} {
+						params = append(params, fmt.Sprintf("(%s_%s : Int)", n.Name, fld))
+					}
 				}
 				for k := 0; k < t.strParams[n.Name]; k++ {
 					params = append(params, fmt.Sprintf("(%s_%d : Int)", n.Name, k))
@@ -1340,6 +1491,9 @@ func (t *translator) helpers(fn *ast.FuncDecl, pkg string, decls map[string]*ast
 		if _, known := t.fns[id.Name]; known {
 			return true
 		}
+		if skipFns[id.Name] {
+			return true
+		}
 		d, ok := decls[pkg+"."+id.Name]
 		if !ok || d.Recv != nil || d.Body == nil {
 			return true
@@ -1354,6 +1508,7 @@ func (t *translator) helpers(fn *ast.FuncDecl, pkg string, decls map[string]*ast
 			return true
 		}
 		t.fns[id.Name] = info
+		t.fuelFns[id.Name] = t.usesFuel
 		sb.WriteString(strings.Replace(text, "/-- literal translation of", "/-- (helper) literal translation of", 1))
 		sb.WriteString("attribute [gen_helper] " + id.Name + "\n\n")
 		return true
@@ -1362,7 +1517,7 @@ func (t *translator) helpers(fn *ast.FuncDecl, pkg string, decls map[string]*ast
 
 func genFns(pkgs []*pkgInfo, out string) {
 	consts, constLines := collectConsts(pkgs)
-	t := &translator{consts: consts, fns: map[string]fnInfo{}, bools: map[string]bool{}}
+	t := &translator{consts: consts, fns: map[string]fnInfo{}, bools: map[string]bool{}, fuelFns: map[string]bool{}}
 	// locate the targets, in order (callees first)
 	decls := map[string]*ast.FuncDecl{}
 	for _, p := range pkgs {
@@ -1388,9 +1543,15 @@ func genFns(pkgs []*pkgInfo, out string) {
 			sb.WriteString(fmt.Sprintf("/-- NOT TRANSLATED: unsupported result type -/\ndef %s_untranslatable : String := \"unsupported result type\"\n\n", tg.name))
 			continue
 		}
+		if skipFns[tg.name] {
+			sb.WriteString(fmt.Sprintf("/-- NOT TRANSLATED: the generated definition did not compile -/\ndef %s_untranslatable : String := \"the generated definition did not compile\"\n\n", tg.name))
+			continue
+		}
 		t.helpers(fn, tg.pkg, decls, &sb, 0)
 		t.fns[tg.name] = info
-		sb.WriteString(t.function(fn, info))
+		text := t.function(fn, info)
+		t.fuelFns[tg.name] = t.usesFuel
+		sb.WriteString(text)
 	}
 	for _, tg := range []target{{"integrate", "VerticalZoom"}} {
 		if fn, ok := decls[tg.pkg+"."+tg.name]; ok {
